@@ -2,8 +2,12 @@
 (* C12 - bounded universe, model-checked invariants and scenario emission for spec/FilterSet.tla.
 
    Filter sets are multisets of at most MaxTotal items (at most MaxPerKind of one kind); an item is one of NB base
-   filters (overlapping criteria from Filter.tla's universe, enabled or not, negated or not) with one of the four kinds.
-   The message table holds 8 messages, Streams the 4-message input sequences.
+   filters (overlapping criteria from Filter.tla's universe: id, type alone and combined with an id, payload, lifecycle;
+   enabled or not, negated or not) as positive, negative or event filter, or one of 3 marker filters.
+   The message table holds 11 messages; several of them agree on the address (ecu, apid, ctid) and differ in exactly one
+   other field (message type, verbose bit, text, lifecycle), so that a decision which wrongly depends on the history of the
+   stream (e.g. one re-used from the previous message) differs from Keep. The streams are a few short ones (incl. the
+   empty one) and one Euler circuit in which EVERY ordered pair of messages (also a message with itself) is adjacent once.
      SPECIFICATION Spec  : a set is chosen, then a stream, then the stream filter is stepped message by message;
                            invariants: the set-level rules of the statement and the stream contract.
      SPECIFICATION ESpec : one behaviour per set; EmitScn prints the set (item numbers), Keep for every message with and
@@ -23,12 +27,17 @@ Pool(k) == << E(k),                                                        \* 1 
               [E(k) EXCEPT !.apid = Re("contains", <<B>>, <<>>)],          \* 5 apid contains B (needs ext header)
               [E(k) EXCEPT !.type = TMstp(3)],                             \* 6 control messages
               [E(k) EXCEPT !.pay = PSub(<<6, 15, 15>>, TRUE)],             \* 7 payload "foo", ignoring case
-              [EmptyFilter(k, FALSE, FALSE) EXCEPT !.ecu = Lit(<<A, B>>)]  \* 8 ecu AB, disabled
+              [EmptyFilter(k, FALSE, FALSE) EXCEPT !.ecu = Lit(<<A, B>>)], \* 8 ecu AB, disabled
+              [E(k) EXCEPT !.type = TVmm(65)],                             \* 9 exactly verbose log info (verb_mstp_mtin 0x41)
+              [E(k) EXCEPT !.ecu = Lit(<<A, B>>), !.type = TMstp(3)],      \* 10 control messages of ecu AB
+              [EmptyFilter(k, TRUE, TRUE) EXCEPT !.type = TMstp(3)],       \* 11 not control
+              [E(k) EXCEPT !.lcs = LcList(<<2>>)]                          \* 12 lifecycle 2
            >>
 NB == Len(Pool(0))
-NI == 4 * NB
-KindOf(j) == (j - 1) \div NB
-Item(j) == Pool(KindOf(j))[((j - 1) % NB) + 1]
+ItemTab == Pool(KPos) \o Pool(KNeg) \o Pool(KEvent) \o <<Pool(KMarker)[1], Pool(KMarker)[3], Pool(KMarker)[6]>>
+NI == Len(ItemTab)
+Item(j) == ItemTab[j]
+KindOf(j) == ItemTab[j].kind
 
 RECURSIVE MS(_, _)
 MS(n, lo) == IF n = 0 THEN {<<>>} ELSE UNION {{<<j>> \o t : t \in MS(n - 1, j)} : j \in lo..NI}
@@ -37,19 +46,31 @@ Sets == {s \in UNION {MS(n, 1) : n \in 0..MaxTotal} : PerKindOk(s)}
 FsOf(s) == [i \in 1..Len(s) |-> Item(s[i])]
 
 Msg(ecu, ext, apid, ctid, vmm, text, lc) == [ecu |-> ecu, ext |-> ext, apid |-> apid, ctid |-> ctid, vmm |-> vmm, text |-> text, lc |-> lc]
-Msgs == << Msg(<<A, B, 0, 0>>, TRUE, <<A, B, 0, 0>>, <<B, A, 0, 0>>, 65, <<6, 15, 15, 0, 2, 1, 18>>, 1),       \* "foo bar"
-           Msg(<<B, A, 0, 0>>, TRUE, <<A, A, 0, 0>>, <<B, A, 0, 0>>, 65, <<106, 115, 115, 0, 2, 1, 18>>, 1),   \* "FOO bar"
-           Msg(<<A, B, 0, 0>>, FALSE, Zero4, Zero4, 0, <<2, 1, 18>>, 1),                                       \* "bar"
-           Msg(<<B, A, 0, 0>>, TRUE, <<B, B, 0, 0>>, <<A, 0, 0, 0>>, 38, <<2, 1, 18>>, 2),                     \* control response
-           Msg(<<A, B, 0, 0>>, TRUE, <<A, A, 0, 0>>, <<A, 0, 0, 0>>, 22, <<6, 15, 15>>, 2),                    \* control request "foo"
-           Msg(<<A, 0, 0, 0>>, TRUE, <<B, 0, 0, 0>>, <<B, A, 0, 0>>, 65, <<>>, 2),
-           Msg(<<B, A, 0, 0>>, FALSE, Zero4, Zero4, 0, <<106, 15, 15>>, 0),                                    \* "Foo"
-           Msg(<<A, B, 0, 0>>, TRUE, <<A, B, 0, 0>>, <<A, B, 0, 0>>, 64, <<2, 1, 18>>, 3) >>
+AB0 == <<A, B, 0, 0>>
+BA0 == <<B, A, 0, 0>>
+FooBar == <<6, 15, 15, 0, 2, 1, 18>>
+Msgs == << Msg(AB0, TRUE, AB0, BA0, 65, FooBar, 1),                                  \* 1  address X, verbose log info, "foo bar"
+           Msg(AB0, TRUE, AB0, BA0, 38, FooBar, 1),                                  \* 2  = 1 but control response
+           Msg(AB0, TRUE, AB0, BA0, 65, <<2, 1, 18>>, 1),                            \* 3  = 1 but text "bar"
+           Msg(AB0, TRUE, AB0, BA0, 65, FooBar, 2),                                  \* 4  = 1 but lifecycle 2
+           Msg(AB0, TRUE, AB0, BA0, 64, FooBar, 1),                                  \* 5  = 1 but non-verbose
+           Msg(BA0, TRUE, <<A, A, 0, 0>>, BA0, 65, <<106, 115, 115, 0, 2, 1, 18>>, 1),  \* 6  address Y, "FOO bar"
+           Msg(BA0, TRUE, <<A, A, 0, 0>>, BA0, 22, <<106, 115, 115, 0, 2, 1, 18>>, 1),  \* 7  = 6 but control request
+           Msg(AB0, FALSE, Zero4, Zero4, 0, <<2, 1, 18>>, 1),                        \* 8  no extended header, "bar"
+           Msg(AB0, FALSE, Zero4, Zero4, 0, <<106, 15, 15>>, 2),                     \* 9  = 8 but "Foo", lifecycle 2
+           Msg(<<A, 0, 0, 0>>, TRUE, <<B, 0, 0, 0>>, BA0, 65, <<>>, 2),              \* 10 other address, empty text
+           Msg(AB0, TRUE, AB0, AB0, 38, <<2, 1, 18>>, 3) >>                          \* 11 = address X but ctid AB, control
 NM == Len(Msgs)
-Streams == << <<1, 2, 3, 4>>, <<5, 6, 7, 8>>, <<1, 1, 1, 1>>, <<4, 3, 2, 1>>, <<2, 5, 2, 8>>, <<3, 7, 6, 1>> >>
+\* Euler circuit of the complete directed graph (with loops) on the 11 messages
+Euler == << 1, 1, 2, 1, 3, 1, 4, 1, 5, 1, 6, 1, 7, 1, 8, 1, 9, 1, 10, 1, 11, 2, 2, 3, 2, 4, 2, 5, 2, 6, 2, 7, 2, 8, 2, 9, 2, 10, 2, 11,
+            3, 3, 4, 3, 5, 3, 6, 3, 7, 3, 8, 3, 9, 3, 10, 3, 11, 4, 4, 5, 4, 6, 4, 7, 4, 8, 4, 9, 4, 10, 4, 11, 5, 5, 6, 5, 7, 5, 8, 5, 9,
+            5, 10, 5, 11, 6, 6, 7, 6, 8, 6, 9, 6, 10, 6, 11, 7, 7, 8, 7, 9, 7, 10, 7, 11, 8, 8, 9, 8, 10, 8, 11, 9, 9, 10, 9, 11, 10, 10,
+            11, 11, 1 >>
+ASSUME NM = 11 /\ \A a \in 1..NM : \A b \in 1..NM : \E p \in 1..(Len(Euler) - 1) : Euler[p] = a /\ Euler[p + 1] = b
+Streams == << Euler, <<>>, <<2, 1, 2, 2>>, <<6, 7, 1, 5>>, <<11, 10, 9, 8>>, <<1, 1, 1, 1>> >>
 NS == Len(Streams)
 
-ASSUME PrintT(<<"TAB", ToJson([pool |-> [j \in 1..NI |-> Item(j)], msgs |-> Msgs, streams |-> Streams])>>)
+ASSUME PrintT(<<"TAB", ToJson([pool |-> ItemTab, msgs |-> Msgs, streams |-> Streams])>>)
 
 VARIABLES items, si, i, out, passed, filtered, pc
 vars == <<items, si, i, out, passed, filtered, pc>>
@@ -88,10 +109,17 @@ Closed == pc = "done" => (out = FwdSeq(Fs, Msgs, S) /\ i = Len(S))
 \* ---- scenario emission (SPECIFICATION ESpec)
 EDone == pc = "set" /\ pc' = "emitted" /\ UNCHANGED <<items, si, i, out, passed, filtered>>
 ESpec == Init /\ [][EDone]_vars
+\* the forwarding of a stream derived from the Keep vector of the message table (equal to FwdSeq, see EmitAgrees)
+FwdFrom(kn, s) ==
+    LET R[p \in 0..Len(s)] == IF p = 0 THEN <<>> ELSE IF kn[s[p]] THEN Append(R[p - 1], p) ELSE R[p - 1]
+    IN R[Len(s)]
+KeepVec(we) == [k \in 1..NM |-> Keep(Fs, Msgs[k], we)]
+EmitAgrees == pc = "done" => FwdFrom(KeepVec(FALSE), S) = FwdSeq(Fs, Msgs, S)
 EmitScn == pc = "emitted" =>
+    LET kn == KeepVec(FALSE) IN
     PrintT(<<"SCN", ToJson([items  |-> items,
-                            keepEv |-> [k \in 1..NM |-> Keep(Fs, Msgs[k], TRUE)],
-                            keepNo |-> [k \in 1..NM |-> Keep(Fs, Msgs[k], FALSE)],
-                            fwd    |-> [k \in 1..NS |-> LET q == FwdSeq(Fs, Msgs, Streams[k])
+                            keepEv |-> KeepVec(TRUE),
+                            keepNo |-> kn,
+                            fwd    |-> [k \in 1..NS |-> LET q == FwdFrom(kn, Streams[k])
                                                           IN [pos |-> q, passed |-> Len(q), filtered |-> Len(Streams[k]) - Len(q)]]])>>)
 =============================================================================
